@@ -467,6 +467,12 @@ def case(draw, fam=None, kind=None):
         c["xf"]["copies"] = [[draw(st.integers(0, 2)) == 0 for _ in p] for p in c["xf"]["parts"]]
         c["xf"]["keys"] = draw(keys_list(12))
         c["xf"]["scaleA"] = draw(st.booleans())
+        extra = draw(st.integers(0, 5))
+        if extra in (0, 1):
+            c["xf"]["num"] = draw(renumbering(m))
+        if extra in (1, 2):
+            c["xf"]["bkeys"] = draw(keys_list())
+            c["xf"]["ikeys"] = draw(keys_list())
     return c
 
 
